@@ -370,6 +370,20 @@ fn explore(ctx: &Ctx) -> Outcome {
             }
         }
         layers.push(json!({"family": "a fixed series of failing parses/decompressions on the same thread right before the case", "cases": t.cases, "completed": true}));
+        // each SINGLE call of the series immediately before a representative case
+        let reps: Vec<&Case> = f1.iter().filter(|c| c.entries.len() == 2 && !c.entries[0].0.is_empty()).step_by(41).take(8).collect();
+        for i in 0..props::poison::count() {
+            for c in &reps {
+                props::poison::single_call(i);
+                t.cases += 1;
+                t.nontrivial += 1;
+                if let Some((sig, summary)) = judge(c, &mut t) {
+                    let mut cj = case_json(c);
+                    cj["after_single_call"] = json!(i);
+                    t.violate(format!("after-single-call:{}", sig), format!("right after call #{} of the odd-call series: {}", i, summary), cj);
+                }
+            }
+        }
         total.absorb(t);
     }
     // family 7: the shared tricky-string catalogue in every role, collation-inverted key pairs,
@@ -504,6 +518,10 @@ fn replay(ctx: &Ctx, case: &Value) -> Vec<Violation> {
     }
     let c = case_from_json(case);
     let mut t = Tally::new();
+    if let Some(i) = case["after_single_call"].as_u64() {
+        props::poison::single_call(i as usize);
+        return judge(&c, &mut t).map(|(sig, summary)| vec![Violation { sig: format!("after-single-call:{}", sig), summary, case: case.clone() }]).unwrap_or_default();
+    }
     if case["after_failed_calls"].as_bool().unwrap_or(false) {
         props::poison::failing_calls();
         return match judge(&c, &mut t) {
